@@ -139,6 +139,8 @@ def mutants_of_file(rel):
                     a, b = spans_of(src, n)
                     new = bsrc[:a] + b'pass' + bsrc[b:]
                     out.append(dict(file=rel, func=qual, line=n.lineno, op='stmt->pass', before=bsrc[a:b].decode('utf8')[:80], after='pass', new=new))
+    if os.environ.get('MUTATE_SECOND_SET'):
+        out = second_set(rel, src, bsrc, funcs)
     # drop mutants that do not parse
     good = []
     for m in out:
@@ -148,6 +150,82 @@ def mutants_of_file(rel):
         except SyntaxError:
             pass
     return good
+
+
+SWAPS = {'append': 'insert0', 'lstrip': 'rstrip', 'rstrip': 'lstrip', 'min': 'max', 'max': 'min', 'any': 'all', 'all': 'any', 'startswith': 'endswith', 'endswith': 'startswith',
+         'little': 'big', 'big': 'little'}
+
+
+def second_set(rel, src, bsrc, funcs):
+    """operators of the second campaign: neighbouring statements swapped, break <-> continue, `x += e` -> `x = e`, an
+    upper slice bound dropped, min/max any/all lstrip/rstrip startswith/endswith 'little'/'big' exchanged, the first two
+    positional arguments of a call exchanged, a local name replaced by another local of the function"""
+    out = []
+
+    def qual_of(fn):
+        q = fn.name
+        p = getattr(fn, '_p', None)
+        while p is not None:
+            if isinstance(p, (ast.ClassDef, ast.FunctionDef)):
+                q = p.name + '.' + q
+            p = getattr(p, '_p', None)
+        return q
+
+    def rep(node, text):
+        a, b = spans_of(src, node)
+        return bsrc[:a] + text.encode('utf8') + bsrc[b:]
+
+    def add(fn, node, op, new, after):
+        a, b = spans_of(src, node)
+        out.append(dict(file=rel, func=qual_of(fn), line=node.lineno, op=op, before=bsrc[a:b].decode('utf8')[:80], after=after[:80], new=new))
+    for fn in funcs:
+        own = [n for n in ast.walk(fn)]
+        locals_ = sorted({n.id for n in own if isinstance(n, ast.Name) and isinstance(n.ctx, ast.Store)} | {a.arg for a in fn.args.args if a.arg not in ('self', 'cls')})
+        for n in own:
+            # neighbouring simple statements swapped
+            for f in ('body', 'orelse'):
+                blk = getattr(n, f, None)
+                if isinstance(blk, list) and blk and isinstance(blk[0], ast.stmt):
+                    for i in range(len(blk) - 1):
+                        s1, s2 = blk[i], blk[i + 1]
+                        simple = lambda s: isinstance(s, (ast.Assign, ast.AugAssign)) or (isinstance(s, ast.Expr) and isinstance(s.value, ast.Call))
+                        if simple(s1) and simple(s2) and s1.lineno == s1.end_lineno and s2.lineno == s2.end_lineno and s1.col_offset == s2.col_offset:
+                            a1, b1 = spans_of(src, s1)
+                            a2, b2 = spans_of(src, s2)
+                            new = bsrc[:a1] + bsrc[a2:b2] + bsrc[b1:a2] + bsrc[a1:b1] + bsrc[b2:]
+                            out.append(dict(file=rel, func=qual_of(fn), line=s1.lineno, op='swap stmts', before=bsrc[a1:b1].decode()[:40] + ' ; ' + bsrc[a2:b2].decode()[:40], after='(swapped)', new=new))
+            if isinstance(n, ast.Break):
+                add(fn, n, 'break->continue', rep(n, 'continue'), 'continue')
+            if isinstance(n, ast.Continue):
+                add(fn, n, 'continue->break', rep(n, 'break'), 'break')
+            if isinstance(n, ast.AugAssign) and n.lineno == n.end_lineno:
+                add(fn, n, 'aug->assign', rep(n, '%s = %s' % (ast.unparse(n.target), ast.unparse(n.value))), '=')
+            if isinstance(n, ast.Subscript) and isinstance(n.slice, ast.Slice) and n.slice.upper is not None and n.slice.lower is not None:
+                m = ast.parse(ast.unparse(n), mode='eval').body
+                m.slice.upper = None
+                add(fn, n, 'slice upper dropped', rep(n, ast.unparse(m)), ast.unparse(m))
+            if isinstance(n, ast.Call):
+                f = n.func
+                nm = f.attr if isinstance(f, ast.Attribute) else (f.id if isinstance(f, ast.Name) else None)
+                if nm in SWAPS and SWAPS[nm] != 'insert0':
+                    m = ast.parse(ast.unparse(n), mode='eval').body
+                    if isinstance(m.func, ast.Attribute):
+                        m.func.attr = SWAPS[nm]
+                    else:
+                        m.func.id = SWAPS[nm]
+                    add(fn, n, 'call %s->%s' % (nm, SWAPS[nm]), rep(n, ast.unparse(m)), ast.unparse(m))
+                if len(n.args) >= 2 and not n.keywords and all(isinstance(x, (ast.Name, ast.Attribute, ast.Constant)) for x in n.args[:2]) and ast.unparse(n.args[0]) != ast.unparse(n.args[1]) \
+                        and not any(isinstance(x, ast.Constant) and isinstance(x.value, (str, bytes)) for x in n.args[:2]):
+                    m = ast.parse(ast.unparse(n), mode='eval').body
+                    m.args[0], m.args[1] = m.args[1], m.args[0]
+                    add(fn, n, 'args swapped', rep(n, ast.unparse(m)), ast.unparse(m))
+            if isinstance(n, ast.Constant) and n.value in ('little', 'big') and hasattr(n, 'end_col_offset'):
+                add(fn, n, 'byteorder', rep(n, repr(SWAPS[n.value])), SWAPS[n.value])
+            if isinstance(n, ast.Name) and isinstance(n.ctx, ast.Load) and n.id in locals_ and len(locals_) > 1:
+                k = locals_.index(n.id)
+                other = locals_[(k + 1) % len(locals_)]
+                add(fn, n, 'name %s->%s' % (n.id, other), rep(n, other), other)
+    return out
 
 
 _local = threading.local()
